@@ -412,8 +412,6 @@ func c16Class(v *Val, equalsHeld bool) string {
 	switch {
 	case c16HasMergeKey(v):
 		return "mergekey"
-	case c16BlankRoot(v):
-		return "blankroot"
 	case c16HasNegZero(v) && equalsHeld:
 		return "negzero"
 	}
@@ -696,8 +694,6 @@ func addC16PairCase(run *Run, a, b *Val) {
 	class := ""
 	if c16HasMergeKey(a) || c16HasMergeKey(b) {
 		class = "mergekey"
-	} else if c16BlankRoot(a) || c16BlankRoot(b) {
-		class = "blankroot"
 	} else if c16HasNegZero(a) || c16HasNegZero(b) {
 		class = "negzero"
 	}
